@@ -271,8 +271,9 @@ CLAIMED["C18"] = dict(
         "(an existing entry must have the directory bit - any other mode, e.g. a symlink, is refused) and what it inserts is a directory entry for exactly that path, "
         "after the level above was ensured successfully; CreateEntry inserts only after the parents were ensured successfully; DeleteEntryMetaAndData removes a "
         "directory entry only after the removal of its children succeeded (a refused non-recursive delete of a non-empty directory changes nothing); "
-        "FilerServer.AtomicRenameEntry starts the move (opens the store transaction) only if the new path is not the old path and the new parent neither is the "
-        "renamed entry nor lies below it (util.FullPath.Child verified, path containment as util.IsPathInDir).",
+        "FilerServer.AtomicRenameEntry starts the move (opens the store transaction) only if the new parent neither is the renamed entry nor lies below it "
+        "(util.FullPath.Child verified, path containment as util.IsPathInDir); FilerServer.moveSelfEntry creates under the new path an entry with the moved entry's "
+        "attributes, chunks, extended attributes, content, remote info and hard-link identity, and removes the old entry only after that succeeded.",
    note="Guard obligations (order and arguments of calls), not a proof of the tree invariant over histories; the store implementations, transactions, the move itself "
         "(moveEntry: whole subtree, no loss or duplication) and the listing loop inside doBatchDeleteFolderMetaAndData (assumed not to modify the entry) are not decided here; memory safety of the abstracted "
         "functions is assumed. " + TRUST,
@@ -282,9 +283,11 @@ CLAIMED["C21"] = dict(
         "when no name is left and re-encoded and written back otherwise, nothing is written when the record is missing; handleUpdateToHardLinks always refreshes the "
         "shared record of a hard linked entry and, when the name belonged to another identity, releases exactly that old identity (guard at the DeleteHardLink call: the "
         "id passed is the existing entry's); the wrapper's UpdateEntry runs that step on every path before the per-name entry is written, and writes the per-name "
-        "entry exactly when it succeeded.",
+        "entry exactly when it succeeded. Rename (guards on FilerServer.moveSelfEntry): the entry created under the new name carries the hard-link identity of the "
+        "moved entry, counted as one more name until the old name is removed, and the old name is removed only after the new one was created.",
    note="protobuf encoding of the shared record is abstract (kvCounter ghost function), the key/value store and the per-name stores are opaque; link counting across "
-        "histories (who increments), rename (moveSelfEntry does not carry the hard link fields - noticed, not investigated) and FUSE link creation are not decided. " + TRUST,
+        "histories (who increments on link creation) and FUSE link creation are not decided. One defect repaired (a rename dropped the hard-link identity of the "
+        "renamed name and decremented the counter of the others). " + TRUST,
    design="DESIGN.md §4 C21")
 
 CLAIMED["C25"] = dict(
